@@ -164,7 +164,7 @@ def run_compound(job, ctx):
                     continue
                 for N, M in ((5, 30), (12, 5), (r.randrange(1, 900), r.randrange(1, min(99, ratios[fu] - 1) + 1))):
                     q = '%d %s %s %d %s' % (N, mform, con, M, fform)
-                    key = '%s|compound|%s|%s|%s' % (cu, mu, fu, q)
+                    key = '%s|compound|%s|%s' % (cu, mu, fu)      # not the amounts: they vary with the seed
                     where = {'model': 'CurrencyModel', 'culture': cu, 'kind': 'compound'}
                     want = Decimal(N) + Decimal(M) / Decimal(ratios[fu])
                     try:
